@@ -11,14 +11,110 @@ BASELINE_CMD = ("cd /repo && /venv/bin/python -m pytest -ra -q -p no:cacheprovid
 
 # id -> (built, level, technique, text, note)
 CHECKS = {
+ "C01": (True, "other", "linear-operator word rewriting + COO block algebra + finite-domain evaluation + predicate classification (ast)",
+   "Decides the algebra of conservation: D(Js+Jn) - B mu_b reduces to 0 as operator words using mu = L^-1 rhs and L = D@G (the latter "
+   "established on symbolic COO blocks of the operators the solver actually builds, with no identity rows / link variable in the mu operators); "
+   "boundary-flux columns integrate to the edge length; the terminal density is -(1/L_t) * sum of the other terminals' currents stored on exactly "
+   "the terminal's boundary edges, with L_t summed over the same edge set; J_scale equals 4[I]/[L]/K0 as an exact term in the unit sizes and is "
+   "applied once; the balance test on the summed currents must be a tolerance test. Necessary conditions in exact arithmetic, not residual sizes.",
+   "Trusted: pvs normaliser/semantic table, SuperLU/pardiso solve L mu = rhs. Declined: numerical size of the per-cell residual."),
+ "C02": (True, "other", "symbolic value numbering of solve_for_psi_squared vs documented z, w, quad-root, psi-sol; CFG refusal discipline",
+   "Evaluates the update function symbolically (exact complex rational normal forms; sqrt atom with s^2 = discriminant) and shows, for the whole "
+   "per-site input space at once: returned |psi'|^2 and psi' equal the documented root / psi-sol, psi' + z x - w == 0, |psi'|^2 - x == 0, x is "
+   "real with numerator 2|w|^2, the branch stays finite at gamma = 0; the value return is dominated by the false branch of any(disc < 0) with a strict "
+   "test, sqrt only after the test; floating-point underflow must not be promoted to a refusal.",
+   "Exact arithmetic; cancellation error of the root and overflow are declined. Spec transcribed from docs/background.rst (labels checked)."),
  "C03": (True, "proof", "COO block algebra over abstractly interpreted operator builders; exact rational normal forms",
    "Decides, for every mesh at once, the algebraic identities behind the property: L = D@G, area-weighted column sums of D vanish, "
    "boundary-flux columns integrate to the edge length, diag(a)L is the weighted graph Laplacian W[[-1,1],[1,-1]] per edge with zero row sums, "
    "diag(a)L(A) is Hermitian with the link variable on exactly the off-diagonal blocks, gradient rows are (f[e1]-f[e0])/|e| with the edge vector "
-   "oriented e0->e1. Each is an identity between symbolic COO blocks extracted from the current builders by abstract interpretation of their AST. "
-   "It decides the form (a necessary and, in exact arithmetic, sufficient condition for the stated identities), not floating-point residuals.",
+   "oriented e0->e1. Each is an identity between symbolic COO blocks extracted from the current builders by abstract interpretation of their AST.",
    "Trusted: pvs normaliser and numpy/scipy semantic table (COO duplicates add, einsum 'ij,ij->i', exp, isin). Declined: positivity of dual edge "
    "lengths and mesh connectivity (needed for 'negative semi-definite, kernel = constants'), rounding."),
+ "C04": (True, "other", "gauge-transformation substitution on symbolic COO blocks; who-may-write audit",
+   "Applies psi_i -> psi_i X_i, U_ij -> U_ij X_i/X_j (X unit atoms) to every block of the covariant gradient/Laplacian (fresh and refreshed, pinned "
+   "and unpinned) and checks covariance exactly; the supercurrent is invariant; one link variable exp(-iA.e) everywhere; a constant shift of mu is a "
+   "global phase of psi' and leaves |psi'|^2; only MeshOperators writes the covariant operators and the solver hands it A_applied(+A_induced).",
+   "Operator-level and per-step only; agreement of two whole runs to rounding is declined."),
+ "C05": (True, "other", "typestate on the statement CFG of the run loop; sibling agreement; shape domain {1,many}; prefix-sum typing",
+   "Product-graph typestate search over the CFG of Runner._run_stage (events LABEL/UPDATE/SAVE/ADVANCE, exception edges from the update call and "
+   "the frame writer): every save happens with exactly as many updates applied as the label says, on every path, with a witness path otherwise; save "
+   "predicates complementary; records appended once per update under the guards under which they are declared; cursor/clear discipline; the record "
+   "writer's rank vs the reader's on the abstract shape domain; thermalisation never saved and clock reset; reported times are exclusive prefix sums.",
+   "Exceptions only at the two injection points the property names; h5py creation order trusted."),
+ "C06": (True, "other", "fixed-point obligation on an identity row (value numbering); row-mask typing of COO blocks; def-use wiring rules",
+   "Shows psi' == v on a pinned row (identity row with the eigenvalue the code uses) for v = 0 and for symbolic v, that every non-identity block of a "
+   "pinned Laplacian is masked by its row index in builder and refresh, that nothing is masked when terminal_psi is None, and that the solver pins "
+   "exactly the terminals' boundary sites under `terminal_psi is not None`.",
+   "The static obligation is the per-step fixed point; it does not bound drift sizes."),
+ "C07": (True, "other", "value numbering of the circumcentre formula and edge geometry; structural rules on edge extraction / dual-length branches",
+   "Narrow claim: only the closed-form clauses - circumcentre equidistance identity, edges as sorted unique pairs with boundary = one incident "
+   "triangle, edge vectors/lengths/centres from the site pairs, the two dual-length branches and the +1/-1 adjacency offset. These are necessary "
+   "conditions for the dual quantities being Voronoi quantities; tiling, Delaunay property, clipped boundary cells are declined.",
+   "Everything computed by Triangle/qhull/shapely is declined (listed in evidence.declined_clauses)."),
+ "C08": (True, "other", "dimension typing with exact unit-size factors (model of pint) + symbolic flux sum",
+   "Runs the repository's own pint expressions through a model of pint in which the user's units have unknown sizes kL, kB, kI: every .to() is between "
+   "equal dimensions; A_scale, J_scale, the screening weights and the Device constants equal their physical definitions as exact terms (so the "
+   "dimensionless problem is unit independent); the link exponents around a symbolic triangle in a uniform field sum to 2 pi B Area/Phi0.",
+   "pint's conversion tables trusted; equality of two whole runs to rounding declined."),
+ "C09": (True, "other", "whole-library effect audit (taint of nondeterminism sources, set consumers, prange race rules, np.empty coverage)",
+   "Enumerates every source of nondeterminism in the library and shows each flows only to log text, exempt timestamp fields, a cache key or a "
+   "raise decision; no order-dependent use of sets; every prange loop writes only rows of its own index with private accumulators (no schedule-"
+   "dependent reduction); every np.empty buffer is fully overwritten before it is read.",
+   "External native code (Triangle, SuperLU, qhull, BLAS, numba codegen) assumed deterministic on one machine."),
+ "C10": (True, "other", "sibling agreement builder vs in-place refresh by abstract interpretation on symbolic vector potentials; guard/baseline dataflow rule",
+   "Interprets MeshOperators symbolically through sequences A1->A2(->A3) and compares the refreshed matrices block by block (masks included) with a "
+   "fresh build for the last potential, for pinned / unpinned / no terminals; every link-variable block is refreshed and nothing else; in "
+   "TDGLSolver.update a refresh guarded by a tolerance comparison must not forget the baseline, screening refreshes are unconditional.",
+   "scipy __setitem__ overwrites existing entries; cupy branch declined."),
+ "C11": (True, "other", "who-may-read audit of recording options; write-effect audit of observers; table/signature agreement; C05 typestate",
+   "Recording options are read only by the runner/handler/construction site/post-processing; the update gets only (state, buffer, dt, **values); "
+   "the save path and probe readout write only to HDF5 objects, own counters and the record buffer; fresh and seed state tables agree with each other "
+   "and with update()'s signature; same label => same content inherits the typestate of C05.",
+   "Bit-equality of resumed runs as a whole is declined."),
+ "C12": (True, "other", "value numbering of the adaptive block vs eq. dt-tentative; structural/CFG rules on the retry loop; def-use of dt",
+   "The proposed step equals clip(1/2(dt + dt_init/max(1e-10, windowed mean)), 0, dt_max) under adaptive and step > window with one history value "
+   "per update; non-adaptive runs never reassign the step; the retry loop multiplies exactly once between solves, exits only by success or by "
+   "raising on the retry bound; the dt recorded/returned/added to the clock is the one of the last accepted solve.",
+   "dt_init > 0 assumed (not validated by the library)."),
+ "C13": (True, "other", "loop-nest summarisation of numba/cupy kernels; value numbering of the Polyak step; loop exit discipline",
+   "Both kernels summarise to the documented direct double sum (accelerated == direct by form); call sites pass arguments in parameter order; the "
+   "Polyak update and relative error are the documented ones; the screening loop can only be left converged, by raising, or with screening off; "
+   "screening off passes the induced potential through unchanged.",
+   "Convergence/contraction of the iteration declined."),
+ "C14": (True, "other", "writer/reader sibling agreement over HDF5 keys; Optional-default rule; slot coverage of __getstate__",
+   "For six serialisable classes the keys written equal the keys read, optional keys are optional on both sides, readers feed every constructor "
+   "parameter; options: Optional fields must survive the drop-None writer; Mesh.is_restorable tests the written key set; custom __getstate__ covers "
+   "assigned slots; callables use the same names; format detection keys on something always written.",
+   "h5py/cloudpickle fidelity trusted."),
+ "C15": (True, "other", "acquire/release pairing on exception edges (CFG); context-manager discipline; open-mode audit; create-then-fill rule",
+   "No exception edge leaves a file acquisition while an earlier file of the same attempt is open and on disk; the handler is only used as a "
+   "context manager whose __exit__ always closes and never swallows; all h5py.File modes are r/x (r+ only on the own file); the interrupt handler "
+   "either resumes or cancels and a cancelled recorded stage still yields a Solution; frame groups are complete or absent.",
+   "h5py close() flushes; asynchronous interrupts between bookkeeping statements outside the model."),
+ "C16": (True, "other", "operator-table exhaustiveness; abstract interpretation over operand kinds; isinstance-dominance; slot definite assignment",
+   "All ten dunders pass (self, other)/(other, self) with the matching operator; __call__ equals operator(left value, right value) with t passed to "
+   "exactly the time-dependent operands and time_dependent is the OR, for all 8 operand-kind pairs; every operand attribute access is dominated by "
+   "isinstance on that operand and exists on every admitted class; equality is structural; the solver's interface exists on every subclass.",
+   "Operands' own values opaque."),
+ "C17": (True, "other", "chain of exact identities at the symbolic uniform state (block row sums, value numbering with verified sqrt witness)",
+   "At A = 0 the link variable is 1 and the rows of the covariant operators sum to zero (unpinned terminals); the update returns (1, 1) for all "
+   "gamma, u, dt; supercurrent of a constant psi vanishes and zero terminal currents give zero flux; the initial condition is psi = 1, mu = 0.",
+   "Exact arithmetic; floating-point exactness and growth of the adaptive step declined."),
+ "C18": (True, "other", "dispatch-table agreement; alias discipline for inplace; who-may-write on stored vertices; boolean structure",
+   "Operators/methods/from_* constructors/_join_via agree on the operation; with an inplace flag stores go through the alias only; copies are deep; "
+   "only the setter writes the stored vertices, after orient and close_curve; membership is film and not any hole.",
+   "Geometry computed by shapely/matplotlib declined."),
+ "C19": (True, "other", "dominance of validation over the first file-creating statement; call-graph audit; finite-domain range evaluation",
+   "On the inlined flow __init__; solve(): no file-creating call is reachable before the DataHandler block, all input validation precedes it, only "
+   "state-dependent errors (or allow-listed re-validations) can be raised after it; each class of ill-posed input has a guard depending on that "
+   "input and each documented option range is enforced at its end points.",
+   "Sampling validator for callable currents cannot be exhaustive (declined)."),
+ "C20": (True, "other", "loop-nest summarisation of Biot-Savart/distance kernels; degree check; pint model; value numbering of the loop potential",
+   "The vector kernel equals mu0/4pi sum a K x r / r^3 component by component, the z kernel equals its third component, all outputs are degree-1 in "
+   "the currents; SI factors in biot_savart_2d and the four convert_field cases are exact; totals are exactly the sum of parts; the loop potential "
+   "equals the documented elliptic-integral closed form with azimuthal direction; distance kernels and cdist dispatch are the named metrics.",
+   "Agreement with numerical quadrature declined."),
 }
 
 NOT_YET = "checker not yet built in this session (static rule planned in DESIGN.md section 3)"
